@@ -63,16 +63,19 @@ def noShift (r : Row F) (i : Nat) : F :=
   let f1 := f0 + r.inR 1 8
   let f2 := f1 + r.is 8 + r.inR 64 72
   let f3 := f2 + r.inR 10 12
-  let f4 := f3 + r.inR 12 14 + r.inR 14 16 + r.inR 28 30 + r.is 25 + r.is 96
+  let f4 := f3 + r.inR 12 14 + r.inR 14 16 + r.inR 28 30 + r.is 25 + r.is 96 + r.is 9
   let f5 := f4 + r.inR 16 18
   let f6 := f5 + r.inR 18 20
   let f7 := f6 + r.inR 20 22
-  let f8 := f7 + r.inR 22 24 + r.is 24 - r.is 28
+  -- PIPE, MSTREAM: no change from position 8 on, except the pointer in position 12
+  let pm : F := r.is 82 + r.is 83
+  let f8 := f7 + r.inR 22 24 + r.is 24 - r.is 28 + pm
   let f9 := f8 + r.inR 26 28
-  let f12 := f9 - r.is 29 + r.is 28 + r.is 80
+  let f12 := f9 - r.is 29 + r.is 28 + r.is 80 - pm
+  let f13 := f12 + pm
   match i with
   | 0 => f0 | 1 => f1 | 2 => f2 | 3 => f3 | 4 => f4 | 5 => f5 | 6 => f6 | 7 => f7 | 8 => f8
-  | 9 => f9 | 10 => f9 | 11 => f9 | _ => f12
+  | 9 => f9 | 10 => f9 | 11 => f9 | 12 => f12 | _ => f13
 
 /-- `left_shift_flags[i]` (defined for `1 ≤ i ≤ 15`). -/
 def leftShift (r : Row F) (i : Nat) : F :=
@@ -228,7 +231,9 @@ def u32Cs (cur nxt : Row F) : List F :=
     cur.is 70 * (a - nxt.st 0 - (vHi cur + c 1)) ]
 
 /-- SDEPTH (1 constraint). -/
-def ioCs (cur nxt : Row F) : List F := [ cur.is 62 * (nxt.st 0 - cur.b0) ]
+def ioCs (cur nxt : Row F) : List F :=
+  [ cur.is 62 * (nxt.st 0 - cur.b0),
+    (cur.is 82 + cur.is 83) * (nxt.st 12 - (cur.st 12 + c 2)) ]
 
 /-- General per-position constraints (16) and the top-binary constraint (1). -/
 def generalCs (cur nxt : Row F) : List F :=
